@@ -309,11 +309,18 @@ def k2_precede(run: Run, rule: str, fl: Flow, a, b, desc: str, a_floor: int = 1,
 
 
 def k2_follow(run: Run, rule: str, fl: Flow, a, b, desc: str, exits: str = "normal", a_floor: int = 1,
-              b_floor: int = 1) -> None:
-    """Every path from an `a` node to an exit passes a `b` node."""
+              b_floor: int = 1, after: str = "any") -> None:
+    """Every path from an `a` node to an exit passes a `b` node.
+
+    after: 'any' (all successors of a), 'completed' (a returned normally), 'thrown' (a threw)."""
     require_nodes(run, fl, a, f"{rule} (A: {desc})", a_floor)
     require_nodes(run, fl, b, f"{rule} (B: {desc})", b_floor)
-    w = fl.must_follow(a, b, exits=exits)
+    fe = None
+    if after == "completed":
+        fe = lambda lab: lab != "eh"
+    elif after == "thrown":
+        fe = lambda lab: lab == "eh"
+    w = fl.must_follow(a, b, exits=exits, first_edge=fe)
     run.count(1, rule)
     qual = fl.cfg.fa.fd.qual if fl.cfg.fa.fd else "?"
     if run._cur is not None:
@@ -459,4 +466,39 @@ def callers_of(tree: Tree, name: str, files: Optional[Sequence[str]] = None, mem
                     # declaration at class/namespace scope
                     continue
                 out.append((rel, fd.qual, t.line))
+    return out
+
+
+# ---------------------------------------------------------------------------------------------
+# call closure (K7 owner sweeps)
+# ---------------------------------------------------------------------------------------------
+def call_closure(run: Run, fa: C.FuncAST, files: Sequence[str], depth: int = 3,
+                 dispatch: Optional[Dict[str, str]] = None) -> List[Tuple[C.FuncAST, C.Call]]:
+    """All call expressions reachable from fa through functions defined in `files` (by unqualified name)."""
+    out: List[Tuple[C.FuncAST, C.Call]] = []
+    seen = set()
+    work = [(fa, 0)]
+    while work:
+        cur, d = work.pop()
+        key = (cur.fi.path, cur.fd.qual if cur.fd else id(cur), cur.fd.body[0] if cur.fd else 0)
+        if key in seen:
+            continue
+        seen.add(key)
+        for c in calls(cur):
+            out.append((cur, c))
+            if d >= depth:
+                continue
+            nm = callee_name(c)
+            if not nm or nm in ("stop", "start", "evaluate"):
+                continue
+            if dispatch and nm in dispatch:
+                nm = dispatch[nm]
+            for rel in files:
+                if nm not in run.tree.read(rel):
+                    continue
+                for fd in run.tree.funcs(rel, nm):
+                    try:
+                        work.append((parse(run, fd, strict=False), d + 1))
+                    except AnalysisError:
+                        pass
     return out
